@@ -167,7 +167,7 @@ def _build(tier: str):
     n = 8 if tier == 'quick' else 20
 
     def build(rnd: Any) -> dict:
-        return OPS.build_program(rnd, cfg, FAMILIES, n, common.parse_file)
+        return OPS.build_program(rnd, cfg, FAMILIES, n, common.parse_file, stick=0.5)
     return build
 
 
